@@ -11,13 +11,17 @@ E2: depth-bounded exhaustive enumeration of operation histories on a real
                  accelerates the passing case: whatever it reports, every history of length
                  <= 2 and every 64th one are replayed in full lock-step (twin executes the
                  whole history) and the lock-step verdict is the one reported.
-    events     = print(7 text/style combinations) | log | rule(2) | line(1|2) | bell |
+    events     = print(9 payload/style combinations: markup strings with entities, a link, a
+                 newline; a Text whose pieces put < > & and an entity under link-only, blink,
+                 `not bold`, default-colour, conceal and default-background styles; a Text with
+                 hex / rgb() / 8-bit / named colours; with and without a print style) | log | rule(2) | line(1|2) | bell |
                  clear | show_cursor(F|T) | control("") | capture enter | capture exit |
                  export_text(clear=True, styles F|T) | export_html(clear=True, inline F|T)
-                 -- 23 events; captures are not nested (enter is enabled when no block
+                 -- 25 events; captures are not nested (enter is enabled when no block
                  is open, exit when one is)
-    configs    = color_system {None, standard, truecolor} x force_terminal {F, T} x
-                 width {40, 10}
+    configs    = 20: color_system {None, standard, 256, truecolor} x force_terminal {F, T} at
+                 width 40; four of them at width 10; every colour system with no_color=True
+                 (terminal) and with NO_COLOR in _environ (not a terminal)
     twin       = Console(record=False) of the same configuration that executes every
                  output event directly (captures replaced by direct writes); the bytes
                  it appends to its file for one event are that event's *chunk*
@@ -31,8 +35,10 @@ E2: depth-bounded exhaustive enumeration of operation histories on a real
                      export_text()            == characters decoded from rec_exp
                      export_html(inline F|T)  == the same text (tags stripped, entities decoded)
                      export_text(styles=True) decodes to the same (char, style) cells as
-                       rec_exp (colours exact on truecolor, presence on standard, characters
-                       only on colour-less consoles) and as the record read through RefStyle
+                       rec_exp as far as the file can carry them (colours exact on truecolor,
+                       presence on 16/256 colours, attributes and links only under no_color,
+                       characters only without a colour system) and, exactly and on every
+                       configuration, as the record read through RefStyle (the styles as printed)
                      each leaves the canonical state unchanged
                    a clearing export returns what the non-clearing one is required to
                    return and leaves an empty record (the following observation must
@@ -42,18 +48,17 @@ E2: depth-bounded exhaustive enumeration of operation histories on a real
                  its shard is checked but not extended.  This is everything a Console
                  mutates in these events (theme stack and render hooks are untouched).
 
-Strata: "full" = all 23 events, depth <= 3 (quick) / <= 4 (thorough), 12 configurations;
-"core" = a 12-event core one level deeper (depth 4 quick on the six width-40
-configurations / depth 5 thorough on all 12).  Shards = configuration x first event
+Strata: "full" = all 25 events, depth <= 3 (quick) / <= 4 (thorough), 20 configurations;
+"core" = a 12-event core one level deeper (depth 4 quick on 6 configurations /
+depth 5 thorough on 12: the width-40 ones without no_color plus no_color=True).  Shards = configuration x first event
 (full) or x first two events (core); `states` is the sum of the per-shard distinct
 canonical states (a state reached under two first events is counted twice; core shards
 count only the histories of the additional depth).
 
-Measured on this sandbox while 80-150 other processes were runnable on its 16 cores
-(CPU seconds are inflated by the contention, wall times are not representative):
-quick     166,827 histories, 1,630 outcome signatures, ~390 CPU-s  (est. 20-30 s wall on 16 idle cores)
-thorough  3,078,736 histories, 2,416,318 states, 2,626 outcome signatures, ~9,400 CPU-s
-          (est. 6-10 min wall on 16 idle cores)
+Measured on this sandbox (load 20-30 on 16 cores, 6 workers):
+quick     272,651 histories, 4,414 outcome signatures, ~570 CPU-s (est. 40-45 s wall on 16 idle cores)
+thorough  see evidence; the previous 12-configuration / 23-event version took 3,078,736
+          histories and ~9,400 CPU-s, this one is ~1.8x that (est. 10-15 min on 16 idle cores)
 """
 import html as _html
 import io
@@ -68,11 +73,11 @@ ID = "C15"
 LEVEL = "model_checking"
 ENGINE = "E2"
 CAP_S = {"quick": 240, "thorough": 1500}
-FRESH_WORKERS = True      # one colour system per process (Style caches its SGR string per object)
+FRESH_WORKERS = True      # one configuration per process (a Style memoises its SGR string)
 TECHNIQUE = ("depth-bounded exhaustive enumeration of print/log/rule/control/capture/export histories on a real "
              "recording Console (state = history, replayed on fresh consoles, dedup on record+file+buffer), judged "
              "against a non-recording twin console and an independent SGR/OSC-8 stream decoder")
-LEVEL_TEXT = ("Every history up to the depth bound over 23 events and 12 console configurations is executed on a real "
+LEVEL_TEXT = ("Every history up to the depth bound over 25 events and 20 console configurations is executed on a real "
               "recording Console and on a twin that writes directly; after every history the file, every capture result, "
               "the plain, styled and both HTML exports are compared with the twin's bytes read by an independent terminal "
               "stream decoder, and the clear / no-clear contract is checked on the canonical state. Every transition is a "
@@ -80,8 +85,8 @@ LEVEL_TEXT = ("Every history up to the depth bound over 23 events and 12 console
               "stated bounds; nothing is sampled.")
 LEVEL_NOTE = ("Trusted: CPython, vf/term.py (decoder), vf/refstyle.py, html.unescape + a tag regex, and the twin console as "
               "the definition of 'as it would have been written' (rendering itself is judged by C01-C09/C03). "
-              "Bounds: history depth 3 over 23 events + depth 4 over a 12-event core (quick) / depth 4 + depth 5 (thorough); "
-              "7 print payloads; captures not nested; single thread.")
+              "Bounds: history depth 3 over 25 events + depth 4 over a 12-event core (quick) / depth 4 + depth 5 (thorough); "
+              "9 print events over 7 payloads; captures not nested; single thread.")
 
 # ------------------------------------------------------------------ alphabet
 # print payloads: markup strings (highlighted by the console) or a list of (text, style) pieces that
@@ -636,8 +641,8 @@ def _explore(cfg, root, alphabet, maxdepth, res, count_from=1):
 
 
 def _cold_caches():
-    """Style.parse hands out shared Style objects and a Style memoises its SGR string without the
-    colour system (that is C03's business); start every shard / replay with fresh objects."""
+    """Style.parse hands out shared Style objects and a Style memoises its SGR string; every shard /
+    replay starts with fresh objects so that a verdict never depends on what ran before in the process."""
     from rich.style import Style
     Style.parse.cache_clear()
     _SK.clear()
@@ -665,12 +670,12 @@ def run_shard(sh, tier, seed):
 def describe(tier, seed, res):
     full_d, core_d = _depths(tier)
     c = res.counters
-    rule = ("all histories of length <= %d over %d events (7 prints over 5 payloads x 2 styles, line(1|2), bell, clear, "
+    rule = ("all histories of length <= %d over %d events (9 prints over 7 payloads -- markup strings, entities under CSS-less styles, hex/rgb/8-bit colours -- x 2 print styles, line(1|2), bell, clear, "
             "show_cursor(F|T), control(''), capture enter/exit (not nested), export_text(clear=True, styles F|T), "
             "export_html(clear=True, inline F|T), rule('' | 't<'), log) x %d configurations (color_system None|standard|"
-            "truecolor x terminal or not x width 40|10)" % (full_d, len(EVENTS), len(CONFIGS)))
+            "256|truecolor x terminal or not at width 40, 4 at width 10, 8 with no_color / NO_COLOR)" % (full_d, len(EVENTS), len(CONFIGS)))
     if core_d:
-        rule += ("; plus all histories of length %d over a %d-event core (print a / escapes / link / styled markup, "
+        rule += ("; plus all histories of length %d over a %d-event core (print a / entities / entities under CSS-less styles incl. a bare link / styled markup, "
                  "line, bell, capture enter/exit, export_text(clear), export_html(clear, inline), rule('t<'), log) on %d "
                  "configurations" % (core_d, len(CORE), len(_core_configs(tier))))
     rule += (". After every history the file, the capture result, a clearing export's return value and the four "
@@ -683,7 +688,8 @@ def describe(tier, seed, res):
             "captured output counts as written (to the capture) at the moment the block is closed, in the order the blocks were closed (DESIGN C15)",
             "the twin console (same configuration, record=False, no captures) defines 'as it would have been written'; rendering itself is decided by other properties",
             "OSC 8 id parameters are ignored (random per Style object)",
-            "styled export vs written stream: colours compared exactly on truecolor consoles, as present/absent on 16-colour consoles (down-conversion is C18/C03), not at all on colour-less consoles; attributes and links always (where the file carries styles)",
+            "styled export vs written stream: colours compared exactly on truecolor consoles, as present/absent on 16/256-colour consoles (down-conversion is C18/C03), not at all under no_color or without a colour system; attributes and links whenever the file carries styles",
+            "styled export vs record: exact (attributes, colours as printed, link) on every configuration",
             "HTML export: text only (tags stripped, entities decoded, <pre> body); CSS and anchors are not judged",
             "capture blocks are not nested; export inside an open block sees only what was flushed before",
             "canonical state = (file, record segments, thread buffer, buffer depth, LogRender._last_time, reference model); theme stack and render hooks are not touched by these events",
